@@ -248,6 +248,7 @@ class Monitor:
     def _hook(self, event, args):
         if not self.active:
             return
+        deny = None
         try:
             if event == "open":
                 path, mode, flags = args
@@ -258,12 +259,19 @@ class Monitor:
                 self.opens.append((spath, fl))
                 if fl & _WRITE_FLAGS:
                     self.mutations.append(("os-open-write", spath, fl))
+                    deny = PermissionError(errno.EROFS, "hvsim: the real file system is read-only while code under test runs", spath)
             elif event in _AUDIT_MUTATING:
                 self.mutations.append((event, repr(args)[:200]))
+                deny = PermissionError(errno.EROFS, "hvsim: the real file system is read-only while code under test runs")
             elif event in _AUDIT_NET:
                 self.net.append((event, repr(args)[:200]))
-        except Exception:  # never let the hook disturb the run
+                deny = OSError(errno.ENETUNREACH, "hvsim: no network while code under test runs")
+        except Exception:  # never let the bookkeeping disturb the run
             pass
+        if deny is not None:
+            # containment: the event is on record (and will be reported); the real operation is not carried out. An exception
+            # raised by an audit hook aborts the audited call.
+            raise deny
 
     def note_mutation(self, kind: str, what: str):
         self.mutations.append((kind, what))
